@@ -865,6 +865,39 @@ def check_propagate(ctx, before, after, included, second):
                 ctx.bad("anchor_not_at_component_image", glyph=name, anchor=x,
                         candidates=sorted([float(cx), float(cy)] for cx, cy in cands)[:12],
                         components=g["components"])
+                continue
+            # "where its BASE's anchor lands": a component that is itself a mark (its glyph, as
+            # the filter left it, carries a '_' anchor) only passes on an anchor it attaches at
+            # ('x' next to '_x': stacking); its other plain anchors are not the composite's.
+            # Judged when the composite has a non-mark component at all (otherwise the filter's
+            # choice of a base among marks is its own heuristic).
+            if x["name"].startswith("_"):
+                continue
+            def marklike(c_):
+                return any(a_["name"].startswith("_") for a_ in after[c_["base"]]["anchors"])
+            comps = [c_ for c_ in g["components"] if c_["base"] in after]
+            if not comps or all(marklike(c_) for c_ in comps):
+                continue
+            wanted = [x["name"]]
+            m_ = S._NUMBERED.match(x["name"])
+            if m_:
+                wanted.append(m_.group(1))
+            allowed = set()
+            for c_ in comps:
+                names_c = {a_["name"] for a_ in after[c_["base"]]["anchors"]}
+                t_ = R.mat(c_["t"])
+                for a_ in after[c_["base"]]["anchors"]:
+                    if a_["name"] in wanted and (not marklike(c_) or ("_" + a_["name"]) in names_c):
+                        allowed.add(R.apply(t_, R.fr(a_["x"]), R.fr(a_["y"])))
+            ctx.bump("anchors_judged_against_base_or_attaching_mark")
+            if case["exact"]:
+                ok2 = (px, py) in allowed
+            else:
+                ok2 = any(abs(px - cx) <= dev and abs(py - cy) <= dev for cx, cy in allowed)
+            if not ok2:
+                ctx.bad("anchor_taken_from_non_attaching_mark_component", glyph=name, anchor=x,
+                        allowed=sorted([float(cx), float(cy)] for cx, cy in allowed)[:8],
+                        components=g["components"])
         # outlines are none of this filter's business (observed only, C14 judges it)
         if not (same_components(g["components"], a["components"])
                 and same_contours(g["contours"], a["contours"])):
